@@ -167,8 +167,10 @@ def angular_stream(ctx, ncases, which):
                    ("alternative_dot", 3, "alternative_dot", lambda xs, ys: pd.alternative_dot(xs, ys))]
     else:
         enc = lambda v: (np.nonzero(v)[0].astype(np.int32), v[np.nonzero(v)[0]])
-        kernels = [("sparse_cosine", 0, "cosine", lambda xs, ys: sp.sparse_cosine(*enc(xs), *enc(ys))),
-                   ("sparse_alternative_cosine", 1, "alternative_cosine", lambda xs, ys: sp.sparse_alternative_cosine(*enc(xs), *enc(ys))),
+        # columns 4, 5: the model's sparse_cosine / sparse_alternative_cosine on the CSR encodings (proved equal to the dense
+        # columns 0, 1 for all inputs: C08_sparse_cosine_eq_dense)
+        kernels = [("sparse_cosine", 4, "cosine", lambda xs, ys: sp.sparse_cosine(*enc(xs), *enc(ys))),
+                   ("sparse_alternative_cosine", 5, "alternative_cosine", lambda xs, ys: sp.sparse_alternative_cosine(*enc(xs), *enc(ys))),
                    ("sparse_alternative_dot", 3, "alternative_dot", lambda xs, ys: sp.sparse_alternative_dot(*enc(xs), *enc(ys)))]
     bad, classes = {}, {}
     for ln, (x, y), mo in zip(lines, vecs, model):
